@@ -162,6 +162,20 @@ def serial_graph(rng, depth=2, max_nodes=7, bad_names=False, shared=False):
             nodes[nm] = serial_graph(rng, depth - 1, max_nodes=3)
         else:
             nodes[nm] = rand_leaf(rng)
+    if rng.random() < 0.12:
+        # several nodes whose (large, constant or patterned) parameters have the same dtype and the same BYTES but other shapes,
+        # and twins of equal shape and bytes but another dtype
+        dt = rng.choice(["float32", "float64", "int64", "uint8"])
+        n = rng.choice([256, 512, 1024])
+        base = {"zeros": np.zeros(n), "ones": np.ones(n), "arange": np.arange(n) % 7}[rng.choice(["zeros", "ones", "arange"])].astype(dt)
+        nodes[(names.pop() if names else "twinA")] = {"k": "Linear", "args": {"weight": base.reshape(16, n // 16).copy()}}
+        nodes[(names.pop() if names else "twinB")] = {"k": rng.choice(["LI", "Scale", "Threshold"]), "args": None}
+        kB = list(nodes)[-1]
+        clsB = nodes[kB]["k"]
+        nodes[kB]["args"] = {p: base.reshape(n).copy() for p in ELEMENTWISE[clsB]}
+        if rng.random() < 0.5:
+            other = {"float32": "int32", "float64": "int64", "int64": "float64", "uint8": "bool"}[dt]
+            nodes[(names.pop() if names else "twinC")] = {"k": "Scale", "args": {"scale": np.zeros(n, dtype=other) if base.any() == 0 else base.view(other).copy() if np.dtype(other).itemsize == np.dtype(dt).itemsize else np.zeros(n, dtype=other)}}
     if shared and nodes and rng.random() < 0.5:
         src = rng.choice(list(nodes))
         if nodes[src]["k"] != "__alias__":
